@@ -39,7 +39,49 @@ def _cli_contig_mode(contigs):
         shutil.rmtree(d, ignore_errors=True)
 
 
+def _replay_qflag(a):
+    """real BAM with the records of the counterexample through the real command line `-method qflag`"""
+    import os, shutil, subprocess, sys, tempfile, collections, pysam
+    from replay.common import pysam_mk, HEADER
+    d = tempfile.mkdtemp(prefix='c05qflag', dir=os.environ.get('VERIF_SCRATCH') or None)
+    try:
+        inp = os.path.join(d, 'in.bam')
+        ms, qs, us, rs = [a['m0'], a['m1'], a['m2']], [a['q0'], a['q1'], a['q2']], [a['u0'], a['u1'], a['u2']], [a['r0'], a['r1'], a['r2']]
+        with pysam.AlignmentFile(inp, 'wb', header=HEADER) as h:
+            for i in range(a['n']):
+                r = pysam_mk(query_name='q%d' % i, reference_name='chr1', reference_start=100 + 10 * i, cigartuples=[(0, 8)], seq='ACGTACGT', qual='IIIIIIII',
+                             is_paired=(ms[i] > 0), is_read1=(ms[i] == 1), is_read2=(ms[i] == 2), is_qcfail=qs[i], is_unmapped=False, is_reverse=rs[i],
+                             tags={'SM': 'lib_1', 'RX': 'ACG'})
+                if us[i]:          # unmapped but placed record: keeps its coordinate (sorted file), no CIGAR
+                    r.cigartuples = None
+                    r.is_unmapped = True
+                h.write(r)
+        pysam.index(inp)
+        out = os.path.join(d, 'out.bam')
+        p = subprocess.run([sys.executable, '-m', 'singlecellmultiomics.universalBamTagger.bamtagmultiome', inp, '-method', 'qflag', '-o', out],
+                           capture_output=True, text=True, timeout=600)
+
+        def recs(path):
+            c = collections.Counter()
+            with pysam.AlignmentFile(path) as f:
+                for r in f.fetch(until_eof=True):
+                    c[(r.reference_start, (r.is_read1, r.is_read2) if r.is_paired else None, r.query_sequence)] += 1
+            return c
+        if p.returncode != 0 or not os.path.exists(out):
+            return 'cli_failed', (p.stderr or '')[-300:]
+        if recs(inp) != recs(out):
+            return 'records_differ', 'in %r out %r' % (sorted(recs(inp).items(), key=repr), sorted(recs(out).items(), key=repr))
+        return None, ''
+    finally:
+        shutil.rmtree(d, ignore_errors=True)
+
+
 def replay(args, outdir):
+    if args['lemma'] == 'L7_qflag_every_record':
+        clause, desc = _replay_qflag(args['cex'])
+        if clause is None:
+            return dict(reproduced=False)
+        return dict(reproduced=True, signature='L7_qflag_every_record:%s' % clause, what='-method qflag on a BAM with records %r: %s %s' % (args['cex'], clause, desc))
     if args['lemma'] == 'L6_read_groups_declared':
         import importlib
         H = importlib.import_module('harness.C05')
